@@ -247,3 +247,99 @@ def generate_gamma(prop, label):
         u.outside.append(("filters:ComplexGammatoneFilterBank.__init__", str(e)))
         return u
     return run_contract(prop, fx, contract_gamma(hn), [(label, setup_gamma(hn))], name="gamma_init_prefix", fname="ComplexGammatoneFilterBank.__init__#prefix")
+
+
+# ------------------------------------------------------------------------------------------
+# ComplexGammatoneFilterBank._calculate_temp_support (C07, last clause): the temporal support of filter idx is (floor(offset), ...) with an
+# integer left end - so a causal bank (max_centered False: every offset is 0, see the constructor) has supports that START AT SAMPLE 0,
+# whatever the Newton iteration for the right end does - and a right end that is an integer not left of the onset's ceiling estimate.
+# The iteration itself (real analysis) is havocked: its loop carries no invariant beyond "the tolerance test was evaluated".
+# ------------------------------------------------------------------------------------------
+def setup_gamma_support(order_one):
+    def _setup(ex, st):
+        from pyvc.api import SeqVal
+        idx, order = api.sym("idx"), (1 if order_one else api.sym("order"))
+        nf = api.sym("num_filts")
+        st.assume(z3.And(idx >= 0, idx < nf))
+        if not order_one:
+            st.assume(order >= 2)
+        off = z3.Function("offset_of_filter", I, R)
+        alpha = z3.Function("alpha_of_filter", I, R)
+        cc = z3.Function("c_of_filter", I, R)
+        k = z3.Int("gk")
+        st.assume(z3.ForAll([k], z3.And(alpha(k) > 0, cc(k) > 0)))
+        api.mk_obj(st, "self", "ComplexGammatoneFilterBank", {"_alphas": SeqVal(nf, lambda j: alpha(Z(j))), "_cs": SeqVal(nf, lambda j: cc(Z(j))),
+                                                              "_offsets": SeqVal(nf, lambda j: off(Z(j))), "_order": order})
+        st.env["idx"] = idx
+        for ax in api.math_axioms():
+            ex.axioms.append(ax)
+        ex.ctx = dict(idx=idx, off=off(idx))
+    return _setup
+
+
+def _eps_const():
+    """EFFECTIVE_SUPPORT_THRESHOLD as written in config.py (a positive literal), as an exact rational"""
+    from fractions import Fraction
+    from pyvc import extract
+    v = extract.module_constants("config").get("EFFECTIVE_SUPPORT_THRESHOLD")
+    if not isinstance(v, (int, float)) or not v > 0:
+        raise Outside("config.EFFECTIVE_SUPPORT_THRESHOLD is not a positive literal")
+    f = Fraction(repr(v)) if not isinstance(v, int) else Fraction(v)
+    return z3.RealVal(str(f))
+
+
+def contract_gamma_support():
+    def h_h(ex, st, o, args, kwargs, node, ev):
+        return fresh("h_value", "real")
+
+    def h_abs(ex, st, args, kwargs, node, ev):
+        (a,) = args
+        za = to_real(a)
+        return simp(z3.If(za >= 0, za, -za))
+
+    def h_exp(ex, st, args, kwargs, node, ev):
+        return api.EXP(to_real(args[0])) if hasattr(api, "EXP") else fresh("exp_value", "real")
+
+    powi = z3.Function("pow_int", R, I, R)
+
+    def h_binop(ex, st, op, a, b, n):
+        if isinstance(op, ast.Pow) and symex.is_z3(b) and z3.is_int(b) and (symex.is_num(a) or symex.is_z3(a)):
+            return powi(to_real(a), b)            # t ** (n - 2) in the Newton step: uninterpreted (the iteration is not specified)
+        if isinstance(op, ast.Div) and isinstance(n, ast.BinOp) and isinstance(n.right, ast.Name) and n.right.id == "d_0":
+            # the Newton step divides by the derivative of the envelope at the iterate: non-zero to the right of the envelope's mode, where the
+            # iteration starts and stays (real analysis, not shown here)
+            ex.assumption_ids.add("assumed: the envelope's derivative is non-zero at the Newton iterates of _calculate_temp_support")
+            st.assume(to_real(b) != 0)
+            return simp(to_real(a) / to_real(b))
+        return NotImplemented
+
+    c = Contract(
+        target=f"filters:ComplexGammatoneFilterBank._calculate_temp_support", uses=["A-REAL", "A-PYSEM", "A-MATH"],
+        consts={"config.EFFECTIVE_SUPPORT_THRESHOLD": _eps_const(), "OFFSET": SpecFn(lambda ev: ev.ex.ctx["off"])},
+        handlers={"np.log": h_log, "np.sqrt": h_sqrt, "np.abs": h_abs, "np.exp": h_exp, "ComplexGammatoneFilterBank._h": h_h, "self._h": h_h, "binop": h_binop},
+        loops={0: LoopSpec(kind="while", invariant=[("iteration_state_is_real", "True")])},
+        ensures=[("left_end_is_the_floor_of_the_onset", "result[0] <= OFFSET() and OFFSET() < result[0] + 1 and len(result) == 2"),
+                 ("a_causal_filter_starts_at_sample_0", "implies(OFFSET() == 0, result[0] == 0)")],
+    )
+    return c
+
+
+def unit_gamma_support(prop="C07"):
+    def unit(tier, known):
+        from contracts.registry import run_contract
+
+        def tc(ob):
+            """causal and max-centred gammatone banks of orders 1-5 in the C07 stand-in's case format (every filter end and the middle)"""
+            out = []
+            for order in (4, 3, 2, 1, 5):
+                for mc in (False, True):
+                    for r, nf, lo in ((8000.0, 3, 20.0), (16000.0, 10, 0.0), (8000.0, 40, 20.0)):
+                        sp = dict(bank="gamma", scale={"name": "mel"}, num_filts=nf, low_hz=lo, high_hz=None, rate=r, order=order, max_centered=mc)
+                        for k in sorted({0, nf // 2, nf - 1}):
+                            out.append({"bank": sp, "filt": k, "mult": 1, "plus": 0})
+            return out
+        return run_contract(prop, ("filters", "ComplexGammatoneFilterBank._calculate_temp_support"), contract_gamma_support(),
+                            [("order1", setup_gamma_support(True)), ("order_ge_2", setup_gamma_support(False))], name="gamma_support",
+                            fname="ComplexGammatoneFilterBank._calculate_temp_support", to_case=tc, replay_module="rtc.c07")
+    unit.__name__ = "gamma_support"
+    return unit
